@@ -120,8 +120,29 @@ theorem Rep.assign {K : PCtx} {exitJ : Nat} (wf : K.WFS exitJ) {σ σ' : X.St} {
         · simpa [hmn] using hv
       · exact hv
     above := by
-      intro a' ha'
-      rw [Mem.read_write_other _ _ _ _ (by omega)]; exact hr.above a' ha'
+      intro a' ha' hna
+      rw [Mem.read_write_other _ _ _ _ (by omega)]; exact hr.above a' ha' hna
+    aptr := by
+      intro m r hrd
+      by_cases hmn : m = n
+      · subst hmn; exact absurd hrd (readName_write_noarr K.xc σ σ' m w r hw)
+      · rw [readName_write_other K.xc σ σ' n m w hw hmn] at hrd
+        obtain ⟨id, a', hid, hloc', hlt', hv'⟩ := hr.aptr m r hrd
+        refine ⟨id, a', hid, hloc', hlt', ?_⟩
+        rw [Mem.read_write_other _ _ _ _ (fun e => hmn (wf.loc_inj m n a' hloc' (by rw [← e]; exact hloc)))]
+        exact hv'
+    acells := by
+      intro id cells hc
+      rw [writeName_arrays K.xc σ σ' n w hw] at hc
+      obtain ⟨hsz, hv'⟩ := hr.acells id cells hc
+      refine ⟨hsz, fun idx w' hi => ?_⟩
+      have hlt : idx < cells.size := by
+        by_cases hlt : idx < cells.size
+        · exact hlt
+        · rw [Array.getElem?_eq_none (by omega)] at hi; simp at hi
+      have := (wf.arr_hi id (by omega)).1
+      rw [Mem.read_write_other _ _ _ _ (by omega)]
+      exact hv' idx w' hi
     gvis := by
       intro m hm
       rcases writeName_cases K.xc σ σ' n w hw with ⟨o, hl, rfl⟩ | ⟨hl, hg, rfl⟩
@@ -260,7 +281,7 @@ theorem noCallA_annotate (ρ : String → Option Word) : ∀ (e : X.Expr), pureE
   | .bool _, _ => by simp [annotate, noCallA]
   | .name _, _ => by simp [annotate, noCallA]
   | .str _, h => by simp [pureE] at h
-  | .sub _ _, h => by simp [pureE] at h
+  | .sub _ i, h => by simp only [pureE] at h; simp [annotate, noCallA, noCallA_annotate ρ i h]
   | .call _ _, h => by simp [pureE] at h
   | .syscall _ _, h => by simp [pureE] at h
   | .un _ a, h => by simp only [pureE] at h; simp [annotate, noCallA, noCallA_annotate ρ a h]
